@@ -155,6 +155,12 @@ func init() {
 			bound: "the real loadTasks against an in-memory PostgreSQL stand-in (pgproto3 over net.Pipe): two integration names each absent / enabled / disabled in the file and in the database (81 mixes) x 4 source-reference sets (one source with start and stop, two sources incl. one defined in both file and database, an unknown source, a known plus an unknown source): exactly one task per enabled integration (file wins on a clash) and referenced source, with the source's chain id, batch size and concurrency (file wins) and the reference's start/stop; an unknown source is an error",
 		})}
 	})
+	boundedChecks["C04"] = append(boundedChecks["C04"], func(w *World, tier string, seed int, verif string) []boundedResult {
+		return []boundedResult{runHarness(w, verif, tier, seed, harnessSpec{
+			name: "task-names-agree", pkg: "shovel", pkgName: "shovel", dir: "manager", files: []string{"fakepg_test.go", "loadtasks_bounded_test.go"}, run: "TestVerifLoadTasksBounded",
+			bound: "for every task the real loadTasks builds over 81 file/database mixes x 4 source-reference sets: the (source, integration) names in the Task fields, in the context values the row builder stamps rows with, and in every destination are the same pair, and the chain id agrees (324 configurations)",
+		})}
+	})
 	boundedChecks["C09"] = append(boundedChecks["C09"], func(w *World, tier string, seed int, verif string) []boundedResult {
 		return []boundedResult{runHarness(w, verif, tier, seed, harnessSpec{
 			name: "abi-decode-vs-spec", pkg: "dig", pkgName: "dig", dir: "abi", files: []string{"abi_bounded_test.go"}, run: "TestVerifABIBounded",
